@@ -3,3 +3,4 @@ pub mod cek;
 pub mod mconst;
 pub mod blake2b;
 pub mod bind;
+pub mod interp;
